@@ -117,17 +117,23 @@ def perFlag (env : FlagEnv) (e : Entry) (flags : List Str) (f : Str) : List Emit
   | .unknown => tagR env.db e tplColon .unknownMessageFlag [.str f] :: dup
   | _ => dup
 
+def formatStep (env : FlagEnv) (d : List ((Str × Str) × Str)) (f : Str) : List ((Str × Str) × Str) :=
+  match flagKind env f with
+  | .format tp fmt => assocSet (tp, fmt) f d
+  | _ => d
+
 /-- the dictionary `(kind, format) ↦ flag` of the format flags -/
-def formatDict (env : FlagEnv) (fs : List Str) : List ((Str × Str) × Str) :=
-  fs.foldl (fun d f => match flagKind env f with
-    | .format tp fmt => assocSet (tp, fmt) f d
-    | _ => d) []
+def formatDict (env : FlagEnv) (fs : List Str) : List ((Str × Str) × Str) := fs.foldl (formatStep env) []
+
+def rangeStep (env : FlagEnv) (flags : List Str) (d : List ((Nat × Nat) × List (Str × Nat))) (f : Str) :
+    List ((Nat × Nat) × List (Str × Nat)) :=
+  match rangeOf env f with
+  | some r => rangeAdd r f (flags.count f) d
+  | none => d
 
 /-- the dictionary `range ↦ (flag text ↦ multiplicity)` of the valid range flags -/
 def rangeDict (env : FlagEnv) (flags fs : List Str) : List ((Nat × Nat) × List (Str × Nat)) :=
-  fs.foldl (fun d f => match rangeOf env f with
-    | some r => rangeAdd r f (flags.count f) d
-    | none => d) []
+  fs.foldl (rangeStep env flags) []
 
 /-- all flag diagnostics of a message -/
 def flagTags (env : FlagEnv) (e : Entry) : List Emit :=
@@ -143,8 +149,12 @@ def positiveFormats (env : FlagEnv) (e : Entry) : List Str :=
   toSorted strLt (keysOf (formatFlagsOf (formatDict env (toSorted strLt e.flags)) []))
 
 /-- the last valid range flag in sorted order determines the range handed to the format checks -/
-def lastRange (env : FlagEnv) (fs : List Str) : Option (Nat × Nat) :=
-  fs.foldl (fun r f => match rangeOf env f with | some x => some x | none => r) none
+def lastStep (env : FlagEnv) (r : Option (Nat × Nat)) (f : Str) : Option (Nat × Nat) :=
+  match rangeOf env f with
+  | some x => some x
+  | none => r
+
+def lastRange (env : FlagEnv) (fs : List Str) : Option (Nat × Nat) := fs.foldl (lastStep env) none
 
 def info (env : FlagEnv) (e : Entry) : Info :=
   let r := lastRange env (toSorted strLt e.flags)
